@@ -66,7 +66,7 @@ BOUNDS = {
              '@no_kwargs mixing: multisets of 2-3 of 5 @no_kwargs shapes [*r:Rule, (), x:Any, x:A, (x,y)] and 5 ordinary shapes '
              '[(), x:Any, x:A, (x:Any, y:A=default), (x,y)] with at least one @no_kwargs x 11 calls (empty, positional, k => v, '
              'unknown keyword) x all orders x {list, set, text}; '
-             'shared callable: multisets of 2-3 definitions (type x kind) made from one python function, values a b d, both syntaxes, all orders x {list, set}; MultiContext exclusivity: 1-2 overloads per member typed over Any A B C D, exclusive flags (T,F) (F,T) (T,T), parent overload Any|Lazy, values b d, both member orders x all enumeration orders',
+             'shared callable: multisets of 2-3 definitions (type x kind) made from one python function, values a b d, both syntaxes, all orders x {list, set}; MultiContext exclusivity: 1-2 overloads per member typed over Any A B C D, exclusive flags (T,F) (F,T) (T,T), parent overload Any|Lazy, values b d, both member orders x all enumeration orders; one plain layer: 2-3 overloads typed over Any A B C D registered with every mix of exclusive flags (at least one True) in every registration order, parent overload Any|Lazy, values b d',
     'thorough': 'as quick plus MultiContext splits for every family of quick, method syntax for 2 parameters n = 3, '
                 'all 11 value pairs containing e with lazy signatures, and 2 parameters n = 4: all sets of 4 distinct eager signatures '
                 'for the value pairs over {d, null}, multisets of 4 for (d, d) (list and set drivers, all spellings)',
@@ -438,6 +438,46 @@ def job_multi_exclusive(tier):
     return res
 
 
+# one plain layer whose overloads were registered with different exclusive flags, in every registration order,
+# above a parent layer that competes: the layer is exclusive as soon as one registration said so, whichever came first
+def plain_exclusive_families():
+    for v in ('b', 'd'):
+        for n in (2, 3):
+            for types in itertools.product(ORDER[:5], repeat=n):
+                for flags in itertools.product((False, True), repeat=n):
+                    if not any(flags):
+                        continue
+                    for parent in ('Any', 'Lazy'):
+                        yield v, types, flags, parent
+
+
+def observe_plain_exclusive(v, types, flags, parent):
+    ovs = tuple(('t%d' % i, (P('x', 'pos', t),), 'function', False) for i, t in enumerate(types))
+    pov = ('p', (P('x', 'pos', parent, parent == 'Lazy'),), 'function', False)
+    fds = [R.definition(o, R.CLASSES6) for o in ovs]
+    call = call_for((v,), False)
+    out = {}
+    for p in itertools.permutations(range(len(fds))):
+        below = contexts.Context(base())
+        below.register_function(R.definition(pov, R.CLASSES6))
+        layer = contexts.Context(below)
+        for i in p:
+            layer.register_function(fds[i], exclusive=flags[i])
+        out[('plain', 'registered', p)] = R.direct(layer, call, R.VALUES6)
+    return out, ((True, ovs), (False, (pov,))), call
+
+
+def job_plain_exclusive(tier):
+    res = Result()
+    for fam in plain_exclusive_families():
+        res.case(('plain-exclusive',) + fam)
+        obs, layers, call = observe_plain_exclusive(*fam)
+        v, types, flags, parent = fam
+        verdict(res, obs, layers, call, ('plain',), 'layer with exclusive and plain registrations of one name above a competing parent layer',
+                {'plain_exclusive': fam}, (len(types), 1, False, False, sum(ORDER.index(t) for t in types), fam))
+    return res
+
+
 def job(tier, k, of):
     res = Result()
     fams = families(tier)[k::of]
@@ -454,7 +494,7 @@ def jobs(tier, seed):
     of = 32 if tier == 'quick' else 64
     return ([('families-%02d' % k, 'job', (tier, k, of)) for k in range(of)] +
             [('mixed-no-kwargs', 'job_mixed', (tier,)), ('shared-payload', 'job_shared', (tier,)),
-             ('multi-exclusive', 'job_multi_exclusive', (tier,))])
+             ('multi-exclusive', 'job_multi_exclusive', (tier,)), ('plain-exclusive', 'job_plain_exclusive', (tier,))])
 
 
 def _tuples(v):
@@ -474,6 +514,8 @@ def replay(case):
                              fds=[shared_definition(i, t, kind) for i, (t, kind) in enumerate(fam)])
     elif 'multi_exclusive' in case:
         obs, layers, call = observe_multi_exclusive(*_tuples(case['multi_exclusive']))
+    elif 'plain_exclusive' in case:
+        obs, layers, call = observe_plain_exclusive(*_tuples(case['plain_exclusive']))
     else:
         sigs = tuple(tuple(s) for s in case['signatures'])
         values = tuple(case['values'])
